@@ -301,7 +301,11 @@ def gen_comment(rng, options, commands):
     kws = []
     for i in range(n):
         k = rng.choice(pool)
-        if k == 'after_pull_request' or rng.random() < 0.04:
+        if rng.random() < 0.03:
+            # odd shapes: a value that itself looks like keyword=...
+            k = '%s=%s=%s' % (k, rng.choice(['1', 'true', '']),
+                              rng.choice(pool))
+        elif k == 'after_pull_request' or rng.random() < 0.04:
             k = '%s=%s' % (k, rng.choice(['1', '7', 'abc', '', '12', '21',
                                           '110', '007']))
         kws.append(k)
@@ -425,6 +429,13 @@ class Session:
             return out
         except exc.TemplateException as err:
             out['outcome'] = type(err).__name__
+            return out
+        except Exception as err:
+            # the evaluation crashed inside handle_comments (e.g. the
+            # IncorrectCommandSyntax message of a keyword with too many
+            # values cannot be rendered): the PR goes no further
+            out['outcome'] = 'crash:' + type(err).__name__
+            self.probe('handle_comments-crashed:' + type(err).__name__)
             return out
         # (a set-valued option is listed in sorted order: its str() would
         # follow the interpreter's hash seed)
